@@ -39,6 +39,20 @@ pub fn o_metadata(input: &[u8], p: &P) -> Out {
 		if got != want {
 			return Err(e("tree", format!("metadata tree differs (key order counts):\n  got  {:?}\n  want {:?}", short(&got), short(&want))));
 		}
+		// the same file as a recorder leaves it when it could not patch the header (declared raw length 0, the
+		// element itself complete): the events are walked up to Game End, the metadata after it is the same
+		if rg.n_ends == 1 && rg.junk_after_end == 0 {
+			let mut z = input.to_vec();
+			z[11..15].copy_from_slice(&[0, 0, 0, 0]);
+			let gz = read_slp(&z, false, false).map_err(|f| e(&format!("read-failed-raw-length-0:{}", f.key()), format!("reading the same file with a declared raw length of 0 failed: {}", f.describe())))?;
+			let gotz = match &gz.metadata {
+				Some(m) => Some(ubj::from_json(m).map_err(|m| e("value-kind", m))?),
+				None => None,
+			};
+			if gotz != want {
+				return Err(e("tree-raw-length-0", format!("with a declared raw length of 0 the metadata tree differs:\n  got  {:?}\n  want {:?}", short(&gotz), short(&want))));
+			}
+		}
 		let w = write_slp(&g).map_err(|f| e(&format!("write-failed:{}", f.key()), format!("writing failed: {}", f.describe())))?;
 		if w != input {
 			return Err(e("bytes", format!("write(read(x)) != x at byte {:?}", first_diff(input, &w))));
@@ -143,7 +157,7 @@ pub fn run() {
 	let s255: String = "ü".repeat(127) + "x"; // 255 bytes of UTF-8
 	let k255: String = "k".repeat(255);
 	let marker = "U S l { } \u{0} [".to_string();
-	cx.note("rule", json!("all trees of a bounded grammar, every key ORDER included (ordered selections of distinct keys): level-1 maps with <=3 entries over keys {\"\", a, é, lastFrame, 255-byte key} (quick: 4 keys) and 12 leaf values (strings \"\", x, 255 bytes of 2-byte UTF-8, text made of the marker bytes U S l { } NUL; ints 0, 1, -1, 127, 128, 65536, i32::MIN, i32::MAX); nested trees to depth 3 with <=2 entries per map; chains of depth 1..140 (beyond depth 100 the reader may refuse; whatever it accepts must make the whole trip); widths up to 40 entries; 100..255 sibling maps (at top level, at depth 3, next to a 100-deep chain); keys with a private meaning in JSON libraries (serde_json's RawValue / Number markers, __proto__, control characters, quotes) with 5 value kinds at 4 places; no metadata; empty metadata; each with Game End present, absent or doubled (rotating). Encoded by the harness's own UBJSON writer, embedded in a minimal replay. Oracle: Game.metadata == the tree with the same key order, write reproduces the input bytes, metadata.json inside the .slpp (own tar reader, order-preserving tokenizer) has the same keys in the same order and the same values, peppi::read gives the same tree; absent metadata => None / null. Every case is non-trivial (distinct tree)"));
+	cx.note("rule", json!("all trees of a bounded grammar, every key ORDER included (ordered selections of distinct keys): level-1 maps with <=3 entries over keys {\"\", a, é, lastFrame, 255-byte key} (quick: 4 keys) and 12 leaf values (strings \"\", x, 255 bytes of 2-byte UTF-8, text made of the marker bytes U S l { } NUL; ints 0, 1, -1, 127, 128, 65536, i32::MIN, i32::MAX); nested trees to depth 3 with <=2 entries per map; chains of depth 1..140 (beyond depth 100 the reader may refuse; whatever it accepts must make the whole trip); widths up to 40 entries; 100..255 sibling maps (at top level, at depth 3, next to a 100-deep chain); keys with a private meaning in JSON libraries (serde_json's RawValue / Number markers, __proto__, control characters, quotes) with 5 value kinds at 4 places; blocks of 77 KB and 260 KB; the same file with a declared raw length of 0; no metadata; empty metadata; each with Game End present, absent or doubled (rotating). Encoded by the harness's own UBJSON writer, embedded in a minimal replay. Oracle: Game.metadata == the tree with the same key order, write reproduces the input bytes, metadata.json inside the .slpp (own tar reader, order-preserving tokenizer) has the same keys in the same order and the same values, peppi::read gives the same tree; absent metadata => None / null. Every case is non-trivial (distinct tree)"));
 	cx.note("exhaustive", json!(true));
 	cx.note("assumptions", json!(["map nesting is bounded by the library (fix 1cec1ba) so that hostile nesting cannot overflow the stack; a refusal beyond depth 100 is accepted", "trees larger than the grammar (more entries per map, deeper nesting with wide maps) are not enumerated"]));
 	let quick = cx.quick();
@@ -197,6 +211,11 @@ pub fn run() {
 			all.push(Some(vec![("a".into(), MVal::Int(1)), (magic.to_string(), val.clone()), ("z".into(), MVal::Str("x".into()))]));
 			all.push(Some(vec![("n".into(), MVal::Map(vec![(magic.to_string(), val.clone()), ("b".into(), MVal::Int(2))]))]));
 		}
+	}
+	// large blocks: hundreds of long strings (77 KB, 260 KB of metadata - beyond 16-bit sizes and typical
+	// buffer caps)
+	for n in [300usize, 1000] {
+		all.push(Some((0..n).map(|i| (format!("key{:04}", i), MVal::Str("v".repeat(250)))).collect()));
 	}
 	cx.note("trees", json!(all.len()));
 	par_each(all.into_iter().enumerate(), |(n, m), local| {
